@@ -136,7 +136,7 @@ theorem roundNat_zero (q : Nat) (hq : 0 < q) : roundNat 0 q = 0 := by
   simp [expo, rhe_zero q hq]
 
 /-! ### the float operations on non-negative values -/
-theorem U_pos : 0 < U := by unfold U; exact Nat.pow_pos (by decide)
+theorem U_pos : 0 < U := Nat.two_pow_pos 1074
 theorem P18_pos : 0 < P18 := by unfold P18; exact Nat.pow_pos (by decide)
 
 theorem fround_nonneg (p : Int) (q : Nat) (hp : 0 ≤ p) : fround p q = (roundNat p.toNat q : Int) := by
